@@ -2,8 +2,12 @@
 package main
 
 import (
+	"bytes"
+	"os"
+	"os/exec"
 	"runtime"
 	"strings"
+	"sync"
 	"time"
 
 	"github.com/miekg/dns"
@@ -74,6 +78,33 @@ func hostile(w []byte, emit bool, what string) {
 		}
 		Emit("unpack_msg", []string{Hx(w)}, o)
 		st["model_unpack_msg"]++
+	}
+	// the input is msg[:len]: the same octets at the front of a larger buffer (a pooled receive buffer whose
+	// spare capacity holds the tail of an earlier, longer packet) must be decoded to exactly the same outcome
+	{
+		big := make([]byte, len(w), len(w)+96)
+		copy(big, w)
+		spare := big[len(w):cap(big)]
+		for i := range spare {
+			const tail = "\x06SECRET\x03abc\x00\x00\x01\x00\x01"
+			spare[i] = tail[i%len(tail)]
+		}
+		var m2 dns.Msg
+		res2 := Protect(func() string {
+			if err := m2.Unpack(big); err != nil {
+				return "err"
+			}
+			return "ok"
+		})
+		same := res2 == res
+		if same && res == "ok" {
+			t1, _ := MsgText(&m)
+			t2, _ := MsgText(&m2)
+			same = t1 == t2
+		}
+		if !same {
+			Viol("C02/outcome-depends-on-spare-capacity/"+what, "the same input octets decode differently when the slice has spare capacity: exact "+res+", with spare capacity "+res2, in)
+		}
 	}
 	if res != "ok" {
 		return
@@ -190,7 +221,75 @@ func corpus(r *Rng) [][]byte {
 	return out
 }
 
+// concurrentChild is what the child process runs: many goroutines decode and print, measure, copy and re-pack
+// messages of their own at the same time, with type / class / rcode / opcode / option codes nobody printed
+// before (the printers fall back to TYPEnnn-style spellings; any shared lazily filled table shows here).
+// A Go "fatal error: concurrent map writes" cannot be recovered, hence the separate process.
+func concurrentChild() {
+	if runtime.GOMAXPROCS(0) < 4 {
+		runtime.GOMAXPROCS(4)
+	}
+	var wg sync.WaitGroup
+	start := make(chan struct{})
+	for g := 0; g < 8; g++ {
+		wg.Add(1)
+		go func(g int) {
+			defer wg.Done()
+			<-start
+			for i := 0; i < 4000; i++ {
+				code := uint16(300 + (i*8+g)%60000)
+				w := []byte{byte(i), byte(g), byte(i % 16 << 3), byte(i % 16), 0, 1, 0, 1, 0, 0, 0, 1,
+					1, 'a', 0, byte(code >> 8), byte(code), byte(code >> 8), byte(code), // question: TYPEcode CLASScode
+					0xc0, 12, byte(code >> 8), byte(code), byte(code >> 8), byte(code), 0, 0, 0, 5, 0, 2, 1, 2, // answer of that type
+					0, 0, 41, 4, 208, byte(i), 0, 0, 0, 0, 6, byte(code >> 8), byte(code), 0, 2, 7, 7} // OPT with option code
+				var m dns.Msg
+				if m.Unpack(w) != nil {
+					continue
+				}
+				_ = m.String()
+				_ = m.Len()
+				c := m.Copy()
+				_, _ = c.Pack()
+				_ = dns.Type(code).String() + dns.Class(code).String()
+			}
+		}(g)
+	}
+	close(start)
+	wg.Wait()
+}
+
+func concurrentUse() {
+	cmd := exec.Command(os.Args[0], os.Args[1:]...)
+	cmd.Env = append(os.Environ(), "C02_CHILD=concurrent")
+	var errb bytes.Buffer
+	cmd.Stderr = &errb
+	done := make(chan error, 1)
+	if err := cmd.Start(); err != nil {
+		st["concurrent_child_not_started"]++
+		return
+	}
+	go func() { done <- cmd.Wait() }()
+	select {
+	case err := <-done:
+		st["concurrent_child_runs"]++
+		if err != nil {
+			msg := errb.String()
+			if len(msg) > 600 {
+				msg = msg[:600]
+			}
+			Viol("C02/concurrent-use-crashes", "decoding and printing / measuring / copying / re-packing accepted messages in 8 goroutines at once ended the process: "+err.Error(), map[string]string{"stderr": msg})
+		}
+	case <-time.After(120 * time.Second):
+		_ = cmd.Process.Kill()
+		Viol("C02/concurrent-use-hangs", "decoding and printing accepted messages in 8 goroutines at once did not finish within 120 s", nil)
+	}
+}
+
 func run(r *Rng, tier string, n int) {
+	if os.Getenv("C02_CHILD") == "concurrent" {
+		concurrentChild()
+		os.Exit(0)
+	}
 	thorough := tier == "thorough"
 	cor := corpus(r)
 	st["corpus_messages"] = len(cor)
@@ -577,6 +676,7 @@ func run(r *Rng, tier string, n int) {
 		hostile(b, i < 150 && emit(), "random")
 		hostileRR(b, 12, i < 60)
 	}
+	concurrentUse()
 	for k, v := range classes {
 		st["class:"+k] = v
 	}
